@@ -156,6 +156,11 @@ def run(ctx: Ctx, only=None):
     exps = ["0", "00", "000", "1", "01", "2", "02", "3", "(0)", "(1)", "(2)", "(00)", "1.0", "2.", "0.5", "-1", "+1", "+0", "-0", "1e1", "0x2", "1_0",
             "b", "(a)", "()", "", "2 2", "2**2", "2^0", "0**2", "2 + 1", "(2+1)", "`2`"]
     inputs = [(b + o + e, rng.random() < 0.8, (True, True, False), None) for b in bases for o in pops for e in exps]
+    # ... and '.' (a factor that was not lexed from the string) as exponent or base, expanding to no, one or several variables
+    for av in (["y", "a"], ["y", "a", "b"], ["y"], ["a"], ["y", "a", "b", "c"], []):
+        for lhs in ("y ~ ", "y + a ~ ", "", "a ~ "):
+            for body in ("b ** .", "a ^ .", "(a + b)**.", ". ** 2", ".^.", "b ** (.)", "a:(b ** .)", ". ** ."):
+                inputs.append((lhs + body, rng.random() < 0.7, (True, True, False), av))
     _run_stream(ctx, "powers", inputs)
     # 3d. Python fragments of unusual shape (callees that are not names, subscripts, lambdas, comprehensions, conditional expressions, keyword
     #     arguments, string literals with operator characters), on either side of '~' and between operators: whatever the variable extraction
